@@ -93,6 +93,16 @@ func Check03(c CaseHist, r *core.Rec) {
 		return
 	}
 	for i, op := range c.Ops {
+		if op.Kind == "clone" {
+			// a Clone is a reachable URL too (and, being a copy, in the state the history reached):
+			// the history continues on it
+			iu = iu.Clone()
+			r.Class("op:clone")
+			if !check(i, true) {
+				return
+			}
+			continue
+		}
 		if op.Kind != "set" {
 			continue
 		}
@@ -135,11 +145,13 @@ func hasAuthority(u *url.Url) bool {
 	return len(h) >= len(p)+2 && h[len(p):len(p)+2] == "//"
 }
 
-func Gen03(t *rapid.T) CaseHist { return genHistory(t, histOpts{maxOps: 8, start: "pair"}) }
+func Gen03(t *rapid.T) CaseHist {
+	return genHistory(t, histOpts{maxOps: 8, start: "pair", clone: true})
+}
 
 var P03 = core.Register(core.Prop[CaseHist]{
 	ID: "C03",
-	Rule: "a start URL ((input, base) pairs as in C01 for a third of the cases, else WPT hrefs / grammar / extreme starts) followed by 0..8 setter calls; " +
+	Rule: "a start URL ((input, base) pairs as in C01 for a third of the cases, else WPT hrefs / grammar / extreme starts) followed by 0..8 setter calls (one step in twelve continues on a Clone of the URL instead: a copy is a reachable URL in the same state); " +
 		"oracle: after the parse and after every setter, url.Parse(u.Href(false)) succeeds and equals u on Href + 9 getters; the exemption is computed, not listed: dropped only when the reference model is in the same state and its own state does not survive serialize-then-parse; " +
 		"non-trivial = the URL has at least 3 non-empty components or some setter changed the serialization; distinct by hash of the history",
 	Gen:   Gen03,
